@@ -442,32 +442,21 @@ func substring(ctx *context, args []Datum) (retLit Datum) {
 	num1 := args[1].Number("substring()")
 	num2 := args[2].Number("substring()")
 
-	substrLen := len(lit0)
-	if substrLen == 0 {
-		return NewLiteralDatum("")
+	// XPATH 4.2: the characters whose position p (1-based) satisfies
+	// p >= round(arg1) and p < round(arg1) + round(arg2).  Done in floating
+	// point so that NaN and infinite arguments behave as specified, and on
+	// characters rather than bytes.
+	start := round(ctx, []Datum{NewNumDatum(num1)}).Number("substring()")
+	end := start + round(ctx, []Datum{NewNumDatum(num2)}).Number("substring()")
+	var b strings.Builder
+	pos := 0.0
+	for _, c := range lit0 {
+		pos++
+		if pos >= start && pos < end {
+			b.WriteRune(c)
+		}
 	}
-
-	// NB: XPATH uses 1 as first index in string, not zero, so we have to
-	//     subtract one here.  We also need to ensure both start and end Pos
-	//     are >= 0.
-	startPos := int(math.Trunc(num1+0.5)) - 1
-	endPos := int(math.Trunc(num2+0.5)) + startPos
-	if startPos < 0 {
-		// Only do this AFTER calculating endPos as the spec says we calculate
-		// length based on the rounded difference of the two params.
-		startPos = 0
-	}
-	if startPos >= substrLen {
-		return NewLiteralDatum("")
-	}
-	if endPos < 0 {
-		endPos = 0
-	}
-	if endPos > substrLen {
-		endPos = substrLen
-	}
-	substr := lit0[startPos:endPos]
-	return NewLiteralDatum(substr)
+	return NewLiteralDatum(b.String())
 }
 
 func substringAfter(ctx *context, args []Datum) (retLit Datum) {
